@@ -83,6 +83,8 @@ func symbols(t *T, into map[string]bool, seen map[*T]bool) {
 	}
 }
 
+var symCache = map[*T]map[string]bool{}
+
 // relevant selects the assumptions connected (through shared symbols) to the goal.
 func relevant(assumptions []*T, roots ...*T) []*T {
 	want := map[string]bool{}
@@ -97,8 +99,12 @@ func relevant(assumptions []*T, roots ...*T) []*T {
 	}
 	infos := make([]*info, len(assumptions))
 	for i, a := range assumptions {
-		m := map[string]bool{}
-		symbols(a, m, map[*T]bool{})
+		m, ok := symCache[a]
+		if !ok {
+			m = map[string]bool{}
+			symbols(a, m, map[*T]bool{})
+			symCache[a] = m
+		}
 		infos[i] = &info{t: a, syms: m}
 	}
 	changed := true
@@ -148,6 +154,13 @@ func (x *Exec) Discharge(cfg *SolverCfg) []*Result {
 	}
 	var jobs []job
 	axioms := x.P.axiomTerms(x)
+	if os.Getenv("GOVC_DEBUG") != "" {
+		for i, a := range x.Assumptions {
+			if sz := term.Size(a); sz > 2000 {
+				fmt.Fprintf(os.Stderr, "big assumption #%d size %d: %.200s\n", i, sz, a.String())
+			}
+		}
+	}
 	for i, o := range x.Obls {
 		r := &Result{Obl: o}
 		results[i] = r
@@ -171,6 +184,10 @@ func (x *Exec) Discharge(cfg *SolverCfg) []*Result {
 			r.Size = term.Size(append(rel, o.Cond)...)
 		}
 		r.Script = script
+		if os.Getenv("GOVC_DEBUG") != "" && len(script) > 20000 {
+			fmt.Fprintf(os.Stderr, "big script %s: %d bytes, %d relevant assumptions of %d\n", o.Name, len(script), len(relevant(as, o.PC, o.Cond)), len(as))
+			os.WriteFile("/tmp/big.smt2", []byte(script), 0o644)
+		}
 		jobs = append(jobs, job{i, script})
 	}
 	tmp, err := os.MkdirTemp("", "govc")
